@@ -135,6 +135,17 @@ class SFlt:
         return "SFlt(%s*%g)" % (self.t, self.scale)
 
 
+class SQuot:
+    """the float a / b of two integers (b a non-zero python int): kept exact, the float rounding is applied by int()"""
+    __slots__ = ("a", "b")
+
+    def __init__(self, a, b):
+        self.a, self.b = a, b
+
+    def __repr__(self):
+        return "SQuot(%s/%s)" % (self.a, self.b)
+
+
 class SStr:
     """Symbolic string token (z3 String)."""
     __slots__ = ("t",)
